@@ -29,6 +29,7 @@ type syncStore[H header.Header[H]] struct {
 }
 
 func (s *syncStore[H]) Head(ctx context.Context) (H, error) {
+	verifYield("sstore:head")
 	if headPtr := s.head.Load(); headPtr != nil {
 		return *headPtr, nil
 	}
@@ -84,6 +85,7 @@ func (s *syncStore[H]) Append(ctx context.Context, headers ...H) error {
 
 		s.head.Store(&head)
 	}
+	verifYield("sstore:append")
 
 	if err := s.Store.Append(ctx, headers...); err != nil {
 		return err
